@@ -1308,3 +1308,6 @@ func (w *World) UserByAddr(a types.Address) *User {
 	}
 	return nil
 }
+
+// Route draws a swap route of 2..5 coins following existing pools when possible.
+func (g *Gen) Route(t *rapid.T) []types.CoinID { return g.route(t) }
